@@ -377,6 +377,28 @@ def h_flow(t, part):
         else:
             if len(attempts) != 2:
                 return Fail('reconnect:gave-up-early', 'attempts that reached the transport: %r' % (attempts,))
+            if part.get('again'):
+                # the effort gave up; later the application connects the same client again by hand, and that
+                # connection is lost accidentally as well: a new effort is due
+                answered['n'] = 0               # (the hand-made connection is accepted on both namespaces)
+                try:
+                    run(w.c.connect('http://h', namespaces=NSS, auth={'k': 1}, headers={'x': 'y'}, transports=['polling'],
+                                    socketio_path='sp', wait=True, wait_timeout=1))
+                except exceptions.ConnectionError:
+                    return None
+                if not w.c.connected:
+                    return None
+                t.reached('connected again after an effort that gave up')
+                run(w.eio.lose())
+                if asyncio_:
+                    started2 = len([tk for tk in w.drv.loop.tasks if tk.name not in ('server',) and not tk.done_ and
+                                    getattr(tk.coro, 'cr_code', None) is not None
+                                    and tk.coro.cr_code.co_name == '_handle_reconnect'])
+                else:
+                    started2 = len(w.eio.bg)
+                if started2 != 1:
+                    return Fail('reconnect:decision:transport-error-after-an-effort-that-gave-up:tasks=%d' % started2,
+                                '_reconnect_task=%r' % (w.c._reconnect_task,))
         return None
     finally:
         mod.random = saved_random
@@ -408,6 +430,7 @@ def flow_parts(tier):
                 out.append({'async': a, 'cause': 'transport-error', 'reconnection': True, 'shutdown_at': sh})
         out.append({'async': a, 'cause': 'transport-error', 'reconnection': True, 'early_loss': True})
         out.append({'async': a, 'cause': 'transport-error', 'reconnection': True, 'slow_disconnect_handler': True})
+        out.append({'async': a, 'cause': 'transport-error', 'reconnection': True, 'again': True})
     return out
 
 
